@@ -295,6 +295,7 @@ type dischargeOpts struct {
 	outDir     string
 	timeout    int
 	allSolvers bool
+	knownFail  map[string]bool // obligations listed as known findings: one solver attempt, no retry
 	jobs       int
 	seed       int
 }
@@ -368,6 +369,9 @@ func discharge(eng *Engine, obls []*Obligation, opt dischargeOpts) {
 					}
 				}
 			}
+			if opt.knownFail[shortFn(j.o.Fn)+"/"+j.o.Name] {
+				order = order[:1]
+			}
 			for si, s := range order {
 				status, out, secs := runSolver(s, j.file, opt.timeout)
 				total += secs
@@ -400,7 +404,7 @@ func discharge(eng *Engine, obls []*Obligation, opt dischargeOpts) {
 	// the machine was loaded by the parallel phase (keeps near-limit proofs from flaking)
 	var retry []job
 	for _, j := range jobs {
-		if !j.o.ExpectSat && (j.o.Status == "timeout" || j.o.Status == "unknown" || j.o.Status == "error") {
+		if !j.o.ExpectSat && (j.o.Status == "timeout" || j.o.Status == "unknown" || j.o.Status == "error") && !opt.knownFail[shortFn(j.o.Fn)+"/"+j.o.Name] {
 			retry = append(retry, j)
 		}
 	}
@@ -429,6 +433,57 @@ func discharge(eng *Engine, obls []*Obligation, opt dischargeOpts) {
 		}
 		wg2.Wait()
 	}
+}
+
+// crossCheck (thorough tier): every obligation proved by one solver is put to the other solvers as
+// well. A definite opposite answer is a disagreement between solvers (a solver bug or an unstable
+// encoding) and is reported; "unknown"/timeout from the second solver is only counted.
+func crossCheck(obls []*Obligation, timeout int) (agreed, undecided int, disagreements []*Obligation) {
+	sem := make(chan struct{}, 16)
+	var wg sync.WaitGroup
+	var mu sync.Mutex
+	for _, o := range obls {
+		if o.ExpectSat || o.Status != "unsat" || o.SMTFile == "" || o.Solver == "simplifier" {
+			continue
+		}
+		wg.Add(1)
+		sem <- struct{}{}
+		go func(o *Obligation) {
+			defer wg.Done()
+			defer func() { <-sem }()
+			first := strings.TrimSuffix(o.Solver, " (retry)")
+			ok, bad := false, false
+			for _, s := range solvers {
+				if s.name == first {
+					continue
+				}
+				status, out, _ := runSolver(s, o.SMTFile, timeout)
+				if status == "unsat" {
+					ok = true
+					break
+				}
+				if status == "sat" {
+					bad = true
+					mu.Lock()
+					o.Model = "proved by " + first + " but " + s.name + " answers sat:\n" + out
+					mu.Unlock()
+					break
+				}
+			}
+			mu.Lock()
+			switch {
+			case bad:
+				disagreements = append(disagreements, o)
+			case ok:
+				agreed++
+			default:
+				undecided++
+			}
+			mu.Unlock()
+		}(o)
+	}
+	wg.Wait()
+	return
 }
 
 func lastName2(fn string) string {
